@@ -38,7 +38,9 @@ func (d *dependencyFurtherMatchingPostProcessors) PostProcessProperties(properti
 				if prop.IsRequired() {
 					return nil, errors.WithMessagef(err, "field '%s' is required but not found any components", prop.String())
 				}
-				return nil, nil
+				// an optional point without candidates stays empty; the remaining points still have to be narrowed
+				prop.Injects = nil
+				continue
 			}
 			return nil, err
 		}
